@@ -182,3 +182,16 @@ add("C29", "IWP drift uses current slope", GMP, "res = res.at[1:, 0].add(dt * re
 add("C29", "generic loop multiplies the wrong row", GMP, "return a.at[i + 1].add(jnp.matmul(d, a[i]))", "return a.at[i + 1].add(jnp.matmul(d, a[i + 1]))", "R29.4")
 add("C29", "generic noise uses drift", GMP, "res = vmap(jnp.matmul, in_ax, 0)(diffamp, xi)", "res = vmap(jnp.matmul, in_ax, 0)(drift, xi)", "R29.4")
 VARIANTS = V
+
+add("C35", "mask stores the flags themselves", OPS + "mask_operator.py", "self._flags = np.logical_not(flags.val)", "self._flags = flags.val.astype(bool)", "R35.1")
+add("C35", "mask adjoint leaves the rest uninitialised", OPS + "mask_operator.py", "        res[~self._flags] = 0\n", "", "R35.1")
+add("C35", "mask adjoint scatters into the complement", OPS + "mask_operator.py", "        res[self._flags] = x\n        res[~self._flags] = 0", "        res[~self._flags] = x\n        res[self._flags] = 0", "R35.1")
+add("C35", "central adjoint overwrites the overlap", OPS + "field_zero_padder.py", "                    xnew[i1] += v[i1]", "                    xnew[i1] = v[i1]", "R35.2")
+add("C35", "central forward uses Nyquist of the output", OPS + "field_zero_padder.py", "                    Nyquist = v.shape[d]//2", "                    Nyquist = xnew.shape[d]//2", "R35.2")
+add("C35", "regridding adjoint swaps the weights", OPS + "regridding_operator.py", "xnew = special_add_at(xnew, d, self._bindex[d-d0], v*(1.-wgt))\n                xnew = special_add_at(xnew, d, self._bindex[d-d0]+1, v*wgt)",
+    "xnew = special_add_at(xnew, d, self._bindex[d-d0], v*wgt)\n                xnew = special_add_at(xnew, d, self._bindex[d-d0]+1, v*(1.-wgt))", "R35.3")
+add("C35", "regridding index not clamped", OPS + "regridding_operator.py", "self._bindex[d] = np.minimum(dom.shape[d]-2, tmp.astype(np.int64))", "self._bindex[d] = tmp.astype(np.int64)", "R35.3")
+add("C35", "interpolator truncates instead of floor", OPS + "linear_interpolation.py", "pos = np.floor(pos).astype(np.int64)", "pos = pos.astype(np.int64)", "R35.4")
+add("C35", "interpolator weight without abs complement", OPS + "linear_interpolation.py", "np.abs(1 - mg[:, i].reshape(-1, 1) - excess)", "np.abs(mg[:, i].reshape(-1, 1) - excess)", "R35.4")
+add("C35", "interpolator adjoint uses matvec", OPS + "linear_interpolation.py", "res = self._sop.rmatvec(x).reshape(self.domain.shape)", "res = self._sop.matvec(x).reshape(self.domain.shape)", "R35.4")
+VARIANTS = V
